@@ -8,6 +8,7 @@ CONSTANTS
     Debug = FALSE
     HookMode = "ok"
     PvSet = FALSE
+    Hang = FALSE
     DrainOnRefusal = TRUE
 
 CHECK_DEADLOCK FALSE
